@@ -404,6 +404,16 @@ class FitEngine(Engine):
                 scn["interleave"] = {"sweep": [i - half, half], "other_seed": scn["truth"]["seed"], "depth": depth}
             return scn
         scn = generate(rng, tier, i)
+        if rng.random() < 0.12:
+            # model-selection family: a faint peak on a strongly curved background, both background
+            # models offered (either order): the background-only fits decide the assessment
+            order = ["linear", "quadratic"]
+            rng.shuffle(order)
+            scn["background"] = {"as": "names", "models": order}
+            span = scn["grid"]["hi"] - scn["grid"]["lo"]
+            scn["truth"]["bkg"] = [scn["truth"]["bkg"][0], rng.uniform(-2, 2) / span, rng.choice([-1, 1]) * rng.uniform(5, 25) / span**2]
+            for pk in scn["truth"]["peaks"]:
+                pk["area"] = pk["area"] * rng.choice([0.005, 0.02, 0.1])
         if len(scn["estimates"]) > 1 and scn["windows"]["mode"] == "scalar" and rng.random() < 0.08:
             # the same estimate given twice (two candidate lists merged): still one result each
             k = rng.randrange(len(scn["estimates"]) - 1)
